@@ -8,6 +8,19 @@ From PV Require Import Base.Exn Base.Values Base.Ann Base.PyCall Model.CheckerCf
 Import ListNotations.
 Open Scope list_scope.
 
+(* a parameter the first checking pass fills from the positional values (when positional calls are allowed) *)
+Definition req1 (c : call) (p : param) : bool :=
+  no_default p && match kw_get (p_name p) (c_kwargs c) with None => true | Some _ => false end.
+
+(* the first pass skips at most as many positional values in front of *args as CPython binds to named parameters:
+   (receiver counted by the implementation) + (values it takes for named parameters) + (receiver of the undecorated callable)
+   <= (receiver the wrapper got) + (positional parameters only a positional value can fill) *)
+Definition star_offset_ok (f : fn) (c : call) : bool :=
+  Nat.leb ((if is_instance_method f then 1 else 0)
+           + List.length (filter (req1 c) (filter (fun p => negb (is_star p)) (params_without_self f)))
+           + List.length (c_twin_recv c))
+          (List.length (c_recv c) + List.length (filter (req_pos (kw_names c)) (full_params f))).
+
 Section C03.
   Variable pc : pedantic_cfg.
   Variable check : ann -> value -> tvenv -> outcome unit * tvenv.
@@ -33,46 +46,49 @@ Section C03.
     Notation chk_all := (chk_all check consumes f c inst).
 
     Lemma chk_ok : forall a v s st st', chk a v s st = Ok st' ->
-      accepted a v /\ a_checked st' = a_checked st.
+      accepted a v /\ a_checked st' = a_checked st /\ a_idx st' = a_idx st.
     Proof.
       intros a v s st st' H. unfold Pedantic.chk in H.
       destruct (clazz_probe f c inst); [|discriminate].
       destruct (check a v (a_tv st)) as [[uu|e] tv'] eqn:E; [|discriminate].
-      inversion H; subst. simpl. split; [|reflexivity]. exists (a_tv st), tv'. now destruct uu.
+      inversion H; subst. simpl. split; [|split; reflexivity]. exists (a_tv st), tv'. now destruct uu.
     Qed.
 
     Lemma pass_named_ok : forall ps idx st st', pass_named ps idx st = Ok st' ->
+      a_idx st' = idx + List.length (filter (req1 c) ps) /\
       a_checked st' = a_checked st ++ map p_name ps /\
       forall p, In p ps -> exists a, p_ann p = Some a /\
         (forall v, kw_get (p_name p) (c_kwargs c) = Some v -> accepted a v) /\
         (forall d, kw_get (p_name p) (c_kwargs c) = None -> p_default p = Some d -> accepted a d).
     Proof.
       induction ps as [|p ps IH]; intros idx st st' H.
-      - simpl in H. inversion H; subst. rewrite app_nil_r. split; [reflexivity|]. intros p [].
+      - simpl in H. inversion H; subst. simpl. rewrite app_nil_r. split; [lia|]. split; [reflexivity|]. intros p [].
       - cbn [Pedantic.pass_named] in H.
         destruct (p_ann p) as [a|] eqn:Ea; [|discriminate].
-        set (st1 := {| a_tv := a_tv st; a_cons := a_cons st; a_checked := a_checked st ++ [p_name p] |}) in *.
+        set (st1 := {| a_tv := a_tv st; a_cons := a_cons st; a_checked := a_checked st ++ [p_name p]; a_idx := a_idx st |}) in *.
         assert (Hrest : forall v s idx' (Hb : Exn.bind (chk a v s st1) (pass_named ps idx') = Ok st'),
-                 accepted a v /\ a_checked st' = a_checked st ++ map p_name (p :: ps) /\
+                 accepted a v /\ a_idx st' = idx' + List.length (filter (req1 c) ps) /\
+                 a_checked st' = a_checked st ++ map p_name (p :: ps) /\
                  forall q, In q ps -> exists a0, p_ann q = Some a0 /\
                    (forall v0, kw_get (p_name q) (c_kwargs c) = Some v0 -> accepted a0 v0) /\
                    (forall d, kw_get (p_name q) (c_kwargs c) = None -> p_default q = Some d -> accepted a0 d)).
         { intros v s idx' Hb. destruct (chk a v s st1) as [st2|e] eqn:Ec; [|discriminate]. simpl in Hb.
-          destruct (chk_ok _ _ _ _ _ Ec) as [Hacc Hch]. destruct (IH _ _ _ Hb) as [Hc' Hall].
-          split; [assumption|]. split; [|assumption].
+          destruct (chk_ok _ _ _ _ _ Ec) as [Hacc [Hch _]]. destruct (IH _ _ _ Hb) as [Hi' [Hc' Hall]].
+          split; [assumption|]. split; [assumption|]. split; [|assumption].
           rewrite Hc', Hch. unfold st1. simpl. now rewrite <- app_assoc. }
+        simpl filter. unfold req1 at 1, no_default.
         destruct (kw_get (p_name p) (c_kwargs c)) as [v|] eqn:Ek.
-        + destruct (Hrest _ _ _ H) as [Hacc [Hc Hall]]. split; [assumption|].
+        + destruct (Hrest _ _ _ H) as [Hacc [Hi [Hc Hall]]]. rewrite andb_false_r. split; [assumption|]. split; [assumption|].
           intros q [->|Hq]; [|auto]. exists a. split; [assumption|]. split.
           * intros v0 E0. rewrite Ek in E0. inversion E0; subst. assumption.
           * intros d E0. rewrite Ek in E0. discriminate.
         + destruct (p_default p) as [d|] eqn:Ed.
-          * destruct (Hrest _ _ _ H) as [Hacc [Hc Hall]]. split; [assumption|].
+          * destruct (Hrest _ _ _ H) as [Hacc [Hi [Hc Hall]]]. simpl. split; [assumption|]. split; [assumption|].
             intros q [->|Hq]; [|auto]. exists a. split; [assumption|]. split.
             -- intros v0 E0. rewrite Ek in E0. discriminate.
             -- intros d0 _ E0. rewrite Ed in E0. inversion E0; subst. assumption.
           * destruct (negb (should_have_kwargs pc f) && Nat.ltb idx (List.length (wargs c))); [|discriminate].
-            destruct (Hrest _ _ _ H) as [Hacc [Hc Hall]]. split; [assumption|].
+            destruct (Hrest _ _ _ H) as [Hacc [Hi [Hc Hall]]]. simpl. split; [lia|]. split; [assumption|].
             intros q [->|Hq]; [|auto]. exists a. split; [assumption|]. split.
             -- intros v0 E0. rewrite Ek in E0. discriminate.
             -- intros d0 _ E0. rewrite Ed in E0. discriminate.
@@ -84,7 +100,7 @@ Section C03.
       induction l as [|[v s] l IH]; intros st st' H.
       - simpl in H. inversion H; subst. split; [reflexivity|]. intros v s [].
       - simpl in H. destruct (chk a v s st) as [st1|e] eqn:Ec; [|discriminate]. simpl in H.
-        destruct (chk_ok _ _ _ _ _ Ec) as [Hacc Hch]. destruct (IH _ _ H) as [Hc Hall].
+        destruct (chk_ok _ _ _ _ _ Ec) as [Hacc [Hch _]]. destruct (IH _ _ H) as [Hc Hall].
         split; [congruence|]. intros v0 s0 [E|Hin]; [inversion E; subst; assumption|eauto].
     Qed.
 
@@ -110,6 +126,32 @@ Section C03.
   Proof.
     intros A g h. induction l as [|x l IH]; simpl; [lia|].
     destruct (h x); simpl; destruct (g x); simpl; lia.
+  Qed.
+
+  Lemma nth_error_Some_lt : forall {A} (l : list A) k x, nth_error l k = Some x -> k < List.length l.
+  Proof. intros A l k x H. apply nth_error_Some. congruence. Qed.
+
+  Lemma nth_error_map_seq : forall n k, k < n -> nth_error (map SArg (seq 0 n)) k = Some (SArg k).
+  Proof. intros n k H. rewrite nth_error_map, nth_error_nth' with (d := 0) by (now rewrite seq_length). now rewrite seq_nth. Qed.
+
+  Lemma combine_app_nth : forall {A B} (l1 l1' : list A) (l2 l2' : list B) k, List.length l1 = List.length l2 ->
+    nth_error (combine (l1 ++ l1') (l2 ++ l2')) (List.length l1 + k) = nth_error (combine l1' l2') k.
+  Proof.
+    intros A B. induction l1 as [|a l1 IH]; intros l1' l2 l2' k Hl; destruct l2 as [|b l2]; try discriminate; [reflexivity|].
+    simpl. apply IH. simpl in Hl. lia.
+  Qed.
+
+  Lemma nth_error_combine : forall {A B} (l1 : list A) (l2 : list B) i x y,
+    nth_error l1 i = Some x -> nth_error l2 i = Some y -> nth_error (combine l1 l2) i = Some (x, y).
+  Proof.
+    intros A B. induction l1 as [|a l1 IH]; intros l2 i x y H1 H2; [destruct i; discriminate|].
+    destruct l2 as [|b l2]; [destruct i; discriminate|]. destruct i; simpl in *; [now inversion H1; inversion H2|]. now apply IH.
+  Qed.
+
+  Lemma nth_error_combine_args : forall (args : list value) i v, nth_error args i = Some v ->
+    nth_error (combine args (map SArg (seq 0 (List.length args)))) i = Some (v, SArg i).
+  Proof.
+    intros args i v H. apply nth_error_combine; [assumption|]. apply nth_error_map_seq. eapply nth_error_Some_lt; eassumption.
   Qed.
 
   Lemma wargs_wsrc_length : forall c, List.length (wargs c) = List.length (wsrc c).
@@ -151,17 +193,17 @@ Section C03.
 
   (* every supplied value of the statement has been accepted by the checker when the argument phase succeeds *)
   Lemma supplied_accepted : forall f c inst st' b,
-    sig_ok f = true ->
+    sig_ok f = true -> star_offset_ok f c = true ->
     twin_binding f c = Ok b ->
     args_phase pc check consumes f c inst astate0 = Ok st' ->
     forall oa v, In (oa, v) (supplied_of f c b) -> exists a, oa = Some a /\ accepted a v.
   Proof.
-    intros f c inst st' b Hsig Hb Hargs oa v Hin.
+    intros f c inst st' b Hsig Hoff Hb Hargs oa v Hin.
     rewrite (args_phase_ref pc check consumes good) in Hargs.
     destruct (run_pass pc check consumes f c inst PNamed astate0) as [st1|e] eqn:E1; [|discriminate]. cbn [Exn.bind] in Hargs.
     destruct (run_pass pc check consumes f c inst PVarPos st1) as [st2|e] eqn:E2; [|discriminate]. cbn [Exn.bind] in Hargs.
     unfold run_pass in E1, E2, Hargs.
-    destruct (pass_named_ok f c inst _ _ _ _ E1) as [Hchk1 Hnamed]. simpl in Hchk1.
+    destruct (pass_named_ok f c inst _ _ _ _ E1) as [Hidx1 [Hchk1 Hnamed]]. simpl in Hchk1.
     pose proof Hsig as Hsig0. unfold sig_ok in Hsig0. repeat (apply andb_true_iff in Hsig0; destruct Hsig0 as [Hsig0 ?]).
     rename Hsig0 into Hnopos, H into Hbound, H0 into Hnoself, H1 into Hdist, H2 into Hone.
     unfold supplied_of in Hin. apply in_flat_map in Hin as [[n sl] [Hnb Hin]]. simpl in Hin.
@@ -206,8 +248,26 @@ Section C03.
       rewrite Hfil in E2. unfold pass_varpos in E2.
       destruct (p_ann p) as [a|] eqn:Ea; [|discriminate]. exists a. split; [reflexivity|].
       destruct (chk_all_ok f c inst _ _ _ _ E2) as [_ Hall].
-      assert (Hv : In v (wargs c)) by (unfold wargs; apply in_or_app; right; eapply nth_error_In; eassumption).
-      destruct (in_combine_left _ (wsrc c) _ (wargs_wsrc_length c) Hv) as [y Hy]. eapply Hall; eassumption.
+      (* the element sits behind everything the first pass skipped *)
+      destruct (py_bind_star _ _ _ _ _ _ Hb Hnb) as [consumed [Epos Hcnt]].
+      apply In_nth_error in Hs as [k Hk].
+      assert (Hpos : nth_error (twin_pos c) (List.length consumed + k) = Some (SArg i)).
+      { rewrite Epos, nth_error_app2 by lia. now replace (List.length consumed + k - List.length consumed) with k by lia. }
+      assert (Hat : List.length consumed + k = List.length (c_twin_recv c) + i).
+      { unfold twin_pos, arg_srcs in Hpos.
+        destruct (Nat.lt_ge_cases (List.length consumed + k) (List.length (c_twin_recv c))) as [Hlt|Hge].
+        - rewrite nth_error_app1 in Hpos by (now rewrite map_length).
+          apply nth_error_In in Hpos. apply in_map_iff in Hpos as [x [Ex _]]. discriminate.
+        - rewrite nth_error_app2 in Hpos by (now rewrite map_length). rewrite map_length in Hpos.
+          assert (Hin' : In (SArg i) (map SArg (seq 0 (List.length (c_args c))))) by (eapply nth_error_In; eassumption).
+          assert (Hlen : List.length consumed + k - List.length (c_twin_recv c) < List.length (c_args c)).
+          { apply nth_error_Some_lt in Hpos. now rewrite map_length, seq_length in Hpos. }
+          rewrite (nth_error_map_seq _ _ Hlen) in Hpos. inversion Hpos. lia. }
+      apply Nat.leb_le in Hoff. rewrite Hidx1 in Hall.
+      apply (Hall v (SArg i)). eapply In_skipn with (k := List.length (c_recv c) + i).
+      + unfold wargs, wsrc, arg_srcs. rewrite combine_app_nth by (now rewrite map_length).
+        apply nth_error_combine_args. assumption.
+      + unfold star_offset_ok in Hoff. lia.
     - (* a value of **kwargs *)
       simpl in Hslot. destruct Hslot as [Hvk ->]. apply in_flat_map in Hin as [k [Hk Hin]].
       destruct (kw_get k (c_kwargs c)) as [v0|] eqn:Ek; simpl in Hin; [|contradiction].
@@ -236,29 +296,29 @@ Section C03.
 
   (* ---------------- the argument guard ---------------- *)
   Theorem args_guard : forall f c bd b a v,
-    sig_ok f = true -> twin_binding f c = Ok b ->
+    sig_ok f = true -> star_offset_ok f c = true -> twin_binding f c = Ok b ->
     In (Some a, v) (supplied_of f c b) -> rejected a v ->
     snd (run pc check consumes f c bd) = [] /\ exists e, fst (run pc check consumes f c bd) = Raise e.
   Proof.
-    intros f c bd b a v Hsig Hb Hin Hrej. rewrite (run_is_ref pc check consumes good). unfold run_ref.
+    intros f c bd b a v Hsig Hoff Hb Hin Hrej. rewrite (run_is_ref pc check consumes good). unfold run_ref.
     destruct (instance_of f c) as [inst|e]; [|simpl; split; eauto].
     destruct (assert_uses_kwargs pc f c) as [u|e]; [|simpl; split; eauto].
     destruct (args_phase pc check consumes f c inst astate0) as [st|e] eqn:Ea; [|simpl; split; eauto].
-    exfalso. destruct (supplied_accepted f c inst st b Hsig Hb Ea _ _ Hin) as [a' [E Hacc]].
+    exfalso. destruct (supplied_accepted f c inst st b Hsig Hoff Hb Ea _ _ Hin) as [a' [E Hacc]].
     inversion E; subst. eapply rejected_not_accepted; eassumption.
   Qed.
 
   (* the same guard for generator functions: the generator object is not even created *)
   Theorem args_guard_gen : forall f c b a v,
-    sig_ok f = true -> twin_binding f c = Ok b ->
+    sig_ok f = true -> star_offset_ok f c = true -> twin_binding f c = Ok b ->
     In (Some a, v) (supplied_of f c b) -> rejected a v ->
     snd (run_gen pc check consumes f c) = [] /\ exists e, fst (run_gen pc check consumes f c) = Raise e.
   Proof.
-    intros f c b a v Hsig Hb Hin Hrej. rewrite (run_gen_is_ref pc check consumes good). unfold run_gen_ref.
+    intros f c b a v Hsig Hoff Hb Hin Hrej. rewrite (run_gen_is_ref pc check consumes good). unfold run_gen_ref.
     destruct (instance_of f c) as [inst|e]; [|simpl; split; eauto].
     destruct (assert_uses_kwargs pc f c) as [u|e]; [|simpl; split; eauto].
     destruct (args_phase pc check consumes f c inst astate0) as [st|e] eqn:Ea; [|simpl; split; eauto].
-    exfalso. destruct (supplied_accepted f c inst st b Hsig Hb Ea _ _ Hin) as [a' [E Hacc]].
+    exfalso. destruct (supplied_accepted f c inst st b Hsig Hoff Hb Ea _ _ Hin) as [a' [E Hacc]].
     inversion E; subst. eapply rejected_not_accepted; eassumption.
   Qed.
 
@@ -351,7 +411,7 @@ Section C03.
   End Exact.
 
   Theorem args_guard_exact : forall f c bd b a v,
-    sig_ok f = true -> twin_binding f c = Ok b ->
+    sig_ok f = true -> star_offset_ok f c = true -> twin_binding f c = Ok b ->
     In (Some a, v) (supplied_of f c b) -> rejected a v ->
     (is_instance_method f = true -> wargs c <> []) ->
     assert_uses_kwargs pc f c = Ok tt ->
@@ -359,12 +419,12 @@ Section C03.
     (forall p a0, In p (f_params f) -> p_ann p = Some a0 -> forall v0 tv e, fst (check a0 v0 tv) = Raise e -> e = PTypeCheckC) ->
     run pc check consumes f c bd = (Raise PTypeCheckC, []).
   Proof.
-    intros f c bd b a v Hsig Hb Hin Hrej Hinst Hauk Hprobe Hptc.
+    intros f c bd b a v Hsig Hoff Hb Hin Hrej Hinst Hauk Hprobe Hptc.
     rewrite (run_is_ref pc check consumes good). unfold run_ref.
     destruct (instance_of f c) as [inst|e] eqn:Ei.
     - rewrite Hauk.
       destruct (args_phase pc check consumes f c inst astate0) as [st|e] eqn:Ea.
-      + exfalso. destruct (supplied_accepted f c inst st b Hsig Hb Ea _ _ Hin) as [a' [E Hacc]].
+      + exfalso. destruct (supplied_accepted f c inst st b Hsig Hoff Hb Ea _ _ Hin) as [a' [E Hacc]].
         inversion E; subst. eapply rejected_not_accepted; eassumption.
       + rewrite (args_phase_raises f c inst (Hprobe inst eq_refl) Hptc _ _ Ea). reflexivity.
     - exfalso. unfold instance_of in Ei. destruct (is_instance_method f); [|discriminate].
